@@ -5,12 +5,13 @@ import Driver.Net
 import Driver.Headers
 import Driver.Cookie
 import Driver.Parser
+import Driver.Router
 
 open Drv
 
 def dispatch (line : String) : String :=
   let ws := words line
-  let ops : List (List String → Option String) := [base64Op, mimeOp, netOp, headersOp, cookieOp, parserOp]
+  let ops : List (List String → Option String) := [base64Op, mimeOp, netOp, headersOp, cookieOp, parserOp, routerOp]
   match ops.findSome? (fun f => f ws) with
   | some r => r
   | none => "bad-op"
